@@ -21,12 +21,14 @@ fn check(spec: &[Vec<&str>], phrase: &str, a: &mut Acc) {
     a.evals += 1;
     // reference: structural application group by group
     let reference = guarded(b, || -> Result<Vec<Vec<CW>>, String> {
-        let c = av::compile(&groups).map_err(|e| format!("{:?}", e))?;
+        // every group is compiled on its own, so the reference does not share the library's group indexing
+        let mut cs = vec![];
+        for g in &groups { cs.push(av::compile(std::slice::from_ref(g)).map_err(|e| format!("{:?}", e))?); }
         let mut cur: Vec<_> = phrase.split(' ').map(|w| av::parse_word(w, None)).collect::<Result<Vec<_>, _>>().map_err(|e| format!("{:?}", e))?;
         let mut states = vec![cur.iter().map(cw_of).collect::<Vec<_>>()];
         for gi in 0..groups.len() {
             let mut next = vec![];
-            for w in cur { next.push(av::apply_group(&c, gi, w).map_err(|e| format!("{:?}", e))?); }
+            for w in cur { next.push(av::apply_group(&cs[gi], 0, w).map_err(|e| format!("{:?}", e))?); }
             cur = next;
             states.push(cur.iter().map(cw_of).collect());
         }
